@@ -1,4 +1,6 @@
 import LLRP.Model.Command
+import LLRP.Proofs.SeqTrySend
+import LLRP.Gen.Sup
 /-!
 # C14 — Device commands map to the right LLRP request; keep-alive spec is enforced
 
@@ -845,5 +847,26 @@ example : wire ⟨false, ["ROSpec", "ROSpecID"], [], []⟩ = [] := by decide
 example : (enforceKA { typ := code "SetReaderConfig", resp := 13, ka := some (0, 60000) }).ka = some (1, 30000) := by decide
 example : (enforceKA { typ := code "SetReaderConfig", resp := 13, ka := none }).ka = some (1, 30000) := by decide
 example : (enforceKA { typ := code "AddROSpec", resp := 30, ka := none }).ka = none := by decide
+
+/-! ## `TrySend` as translated from the source
+
+`Gen.driver_LLRPDevice_TrySend` is the go2seq translation of `LLRPDevice.TrySend` (regenerated from `device.go` on every
+run); `SeqGlue.ksEnv` is a one-object heap for the request's KeepAliveSpec pointer (hand-written: what the pointer
+operations mean). The enforced values are the regenerated constants. -/
+
+/-- **the keep-alive clause at source level**: for every KeepAliveSpec the caller may have supplied — none, any trigger,
+any interval — the SetReaderConfig the translated `TrySend` hands to the retried send carries the periodic spec of
+`keepAliveInterval` milliseconds, and the send is attempted `maxSendAttempts` times through `retry.Quick` -/
+theorem src_ka_enforced (spec : Option (Int × Int)) :
+    (Gen.driver_LLRPDevice_TrySend (SeqGlue.ksEnv true) { spec := spec } () () ()).1.sent
+      = some (some ((Gen.KATriggerPeriodic : Int), ((Gen.drv_keepAliveInterval / 1000000 : Nat) : Int))) ∧
+    (Gen.driver_LLRPDevice_TrySend (SeqGlue.ksEnv true) { spec := spec } () () ()).1.attempts = (Gen.sup_maxSendAttempts : Int) := by
+  have h := SeqGlue.src_trysend_enforces_ka spec
+  simpa [SeqGlue.kaPeriodic, SeqGlue.kaIntervalMs, Gen.KATriggerPeriodic, Gen.drv_keepAliveInterval, Gen.sup_maxSendAttempts] using h
+
+/-- a request of any other type is handed on untouched -/
+theorem src_other_requests_untouched (spec : Option (Int × Int)) :
+    (Gen.driver_LLRPDevice_TrySend (SeqGlue.ksEnv false) { spec := spec } () () ()).1.sent = some spec :=
+  SeqGlue.src_trysend_other_untouched spec
 
 end LLRP.C14
